@@ -19,14 +19,15 @@ def showKind : Kind → String
 def showNAct (a : NAct) : String :=
   showKind a.kind ++ ":" ++ showNats a.members ++ ":" ++ toString a.elems ++ ":" ++ toString a.root
 
-/-- `neoxs pp= dp= mp= stages= tokens= fus= ius= bucketed= cap= es= sym= cube= ops=f,s,…`
+/-- `neoxs pp= dp= mp= stages= tokens= fus= ius= bucketed= cap= es= sym= cube= hook= accum= ops=f,s,…`
     → `r0=<issue>;<issue>… r1=…` (per-rank projections of the global script) -/
 def neoxScriptOp (args : List String) : String :=
   let c : NeoxS.Cfg := {
     t := { pp := natArg args "pp", dp := natArg args "dp", mp := natArg args "mp" },
     stages := parseStages (argOf args "stages"), tokens := natArg args "tokens",
     fus := natArg args "fus", ius := natArg args "ius", bucketed := boolArg args "bucketed",
-    cap := natArg args "cap", esize := natArg args "es", sym := boolArg args "sym", cube := boolArg args "cube" }
+    cap := natArg args "cap", esize := natArg args "es", sym := boolArg args "sym", cube := boolArg args "cube",
+    hook := boolArg args "hook", accum := natArg args "accum" }
   let ops := (splitOnC (argOf args "ops") ',').filterMap fun o =>
     if o == "f" then some Op.train else if o == "s" then some Op.step else none
   let s := run c ops
